@@ -1071,8 +1071,31 @@ class PyCdlib:
 
                 if new_record.rock_ridge is None or new_record.rock_ridge.dr_entries.ce_record is None:
                     # With a continuation entry, the Rock Ridge version is only
-                    # known once the continuation area has been parsed below.
+                    # known once the continuation area has been parsed.
                     self._set_rock_ridge(rr)
+
+                # The continuation area may hold the entries (CL, SL) that decide
+                # what kind of record this is, so it is read first.
+                if new_record.rock_ridge is not None and new_record.rock_ridge.dr_entries.ce_record is not None:
+                    ce_record = new_record.rock_ridge.dr_entries.ce_record
+                    orig_pos = cdfp.tell()
+                    self._seek_to_extent(ce_record.bl_cont_area)
+                    cdfp.seek(ce_record.offset_cont_area, os.SEEK_CUR)
+                    con_block = cdfp.read(ce_record.len_cont_area)
+                    new_record.rock_ridge.parse(con_block, False,
+                                                new_record.rock_ridge.bytes_to_skip,
+                                                True, new_record.file_identifier())
+                    self._set_rock_ridge(new_record.rock_ridge.rr_version)
+                    cdfp.seek(orig_pos)
+                    if not (dir_record.is_root and new_record.is_dot()):
+                        # The continuation area of the root's dot record (the
+                        # 'ER' sector) gets its own extent when mastering, so
+                        # it must not be shared with other continuation entries.
+                        block = self.pvd.track_rr_ce_entry(ce_record.bl_cont_area,
+                                                           ce_record.offset_cont_area,
+                                                           ce_record.len_cont_area)
+                        new_record.rock_ridge.update_ce_block(block)
+
 
                 # Cache some properties of this record for later use.
                 is_symlink = new_record.is_symlink()
@@ -1138,26 +1161,6 @@ class PyCdlib:
                         # size is wrong.  Set the lastbyte appropriately, which
                         # will eventually be used to fix the PVD size.
                         lastbyte = max(lastbyte, new_end)
-
-                if new_record.rock_ridge is not None and new_record.rock_ridge.dr_entries.ce_record is not None:
-                    ce_record = new_record.rock_ridge.dr_entries.ce_record
-                    orig_pos = cdfp.tell()
-                    self._seek_to_extent(ce_record.bl_cont_area)
-                    cdfp.seek(ce_record.offset_cont_area, os.SEEK_CUR)
-                    con_block = cdfp.read(ce_record.len_cont_area)
-                    new_record.rock_ridge.parse(con_block, False,
-                                                new_record.rock_ridge.bytes_to_skip,
-                                                True, new_record.file_identifier())
-                    self._set_rock_ridge(new_record.rock_ridge.rr_version)
-                    cdfp.seek(orig_pos)
-                    if not (dir_record.is_root and new_record.is_dot()):
-                        # The continuation area of the root's dot record (the
-                        # 'ER' sector) gets its own extent when mastering, so
-                        # it must not be shared with other continuation entries.
-                        block = self.pvd.track_rr_ce_entry(ce_record.bl_cont_area,
-                                                           ce_record.offset_cont_area,
-                                                           ce_record.len_cont_area)
-                        new_record.rock_ridge.update_ce_block(block)
 
                 if rr_cl:
                     child_links.append(new_record)
